@@ -78,6 +78,12 @@ func unquote(s string) (string, error) {
 				b.WriteByte('\n')
 			case 't':
 				b.WriteByte('\t')
+			case 'r':
+				b.WriteByte('\r')
+			case 'b':
+				b.WriteByte('\b')
+			case 'f':
+				b.WriteByte('\f')
 			case '0':
 				b.WriteByte(0)
 			default:
